@@ -165,8 +165,18 @@ impl PanicInfo {
 
 thread_local! {
     static LAST_PANIC: RefCell<Option<PanicInfo>> = const { RefCell::new(None) };
-    static QUIET: RefCell<u32> = const { RefCell::new(0) };
+    /// Threads whose panics belong to the current thread's `catch` (e.g. the
+    /// workers of a thread pool owned by this runner).
+    static DELEGATES: RefCell<Vec<std::thread::ThreadId>> = const { RefCell::new(Vec::new()) };
 }
+
+/// Number of `catch` calls in progress anywhere in the process: while > 0 the
+/// default "thread panicked at" report is suppressed (panics raised on pool
+/// worker threads on behalf of a caught call would otherwise be printed).
+static QUIET: AtomicU64 = AtomicU64::new(0);
+static PANIC_SEQ: AtomicU64 = AtomicU64::new(0);
+/// Panics by thread: (sequence number, info).
+static FOREIGN: Mutex<Vec<(std::thread::ThreadId, u64, PanicInfo)>> = Mutex::new(Vec::new());
 
 static HOOK: Once = Once::new();
 
@@ -185,8 +195,16 @@ fn install_hook() {
                 .location()
                 .map(|l| (l.file().to_string(), l.line()))
                 .unwrap_or(("?".into(), 0));
-            let quiet = QUIET.with(|q| *q.borrow() > 0);
-            LAST_PANIC.with(|p| *p.borrow_mut() = Some(PanicInfo { msg, file, line }));
+            let quiet = QUIET.load(Ordering::SeqCst) > 0;
+            let pi = PanicInfo { msg, file, line };
+            let seq = PANIC_SEQ.fetch_add(1, Ordering::SeqCst) + 1;
+            if let Ok(mut f) = FOREIGN.lock() {
+                if f.len() > 256 {
+                    f.drain(..128);
+                }
+                f.push((std::thread::current().id(), seq, pi.clone()));
+            }
+            let _ = LAST_PANIC.try_with(|p| *p.borrow_mut() = Some(pi));
             if !quiet {
                 prev(info);
             }
@@ -194,19 +212,46 @@ fn install_hook() {
     });
 }
 
+/// Declare that panics raised on `threads` (e.g. the workers of a thread pool
+/// this thread owns) belong to `catch` calls made by the current thread.
+pub fn adopt_threads(threads: Vec<std::thread::ThreadId>) {
+    DELEGATES.with(|d| *d.borrow_mut() = threads);
+}
+
 /// Run `f`, converting a panic into `Err(PanicInfo)`. Nothing is printed.
-/// Works from any thread (rayon workers propagate panics to the caller; the
-/// info recorded is then the re-raised one and location may be rayon's).
+/// A panic that was raised on a pool worker thread and re-raised here is
+/// reported with the worker's original message and location: first from the
+/// threads adopted with `adopt_threads`, else the first panic recorded on any
+/// other thread while this call was in progress.
 pub fn catch<T>(f: impl FnOnce() -> T) -> Result<T, PanicInfo> {
     install_hook();
-    QUIET.with(|q| *q.borrow_mut() += 1);
+    QUIET.fetch_add(1, Ordering::SeqCst);
     LAST_PANIC.with(|p| *p.borrow_mut() = None);
+    let seq0 = PANIC_SEQ.load(Ordering::SeqCst);
     let r = catch_unwind(AssertUnwindSafe(f));
-    QUIET.with(|q| *q.borrow_mut() -= 1);
+    QUIET.fetch_sub(1, Ordering::SeqCst);
     match r {
         Ok(v) => Ok(v),
         Err(payload) => {
-            let info = LAST_PANIC.with(|p| p.borrow_mut().take());
+            let me = std::thread::current().id();
+            let own = LAST_PANIC.with(|p| p.borrow_mut().take());
+            let delegates = DELEGATES.with(|d| d.borrow().clone());
+            let foreign = FOREIGN.lock().ok().and_then(|f| {
+                let recent: Vec<&(std::thread::ThreadId, u64, PanicInfo)> =
+                    f.iter().filter(|(_, s, _)| *s > seq0).collect();
+                recent
+                    .iter()
+                    .find(|(t, _, _)| delegates.contains(t))
+                    .or_else(|| if delegates.is_empty() { recent.iter().find(|(t, _, _)| *t != me) } else { None })
+                    .map(|(_, _, p)| p.clone())
+            });
+            // A panic raised on this thread is this call's own. Only when there
+            // is none (a pool re-raises a worker's panic with resume_unwind,
+            // which does not run the hook) look at other threads.
+            let info = match (own, foreign) {
+                (Some(o), _) => Some(o),
+                (None, f) => f,
+            };
             Err(info.unwrap_or_else(|| {
                 let msg = if let Some(s) = payload.downcast_ref::<&str>() {
                     s.to_string()
@@ -294,8 +339,7 @@ struct Shared {
     distinct: HashSet<u64>,
     classes: BTreeMap<String, u64>,
     first_samples: Vec<Value>,
-    reservoir: Vec<Value>,
-    reservoir_seen: u64,
+    minhash: Vec<(u64, Value)>,
     known_hits: BTreeMap<String, u64>,
     known_printed: HashSet<String>,
 }
@@ -310,6 +354,8 @@ pub struct Check {
     assumptions: Vec<String>,
     findings: Vec<Finding>,
     shared: Mutex<Shared>,
+    first_count: AtomicU64,
+    minhash_threshold: AtomicU64,
     subs: Vec<SubStats>,
     violations: Vec<(String, String, PathBuf)>, // (signature, detail, replay path)
     inconclusive: Vec<String>,
@@ -428,6 +474,8 @@ impl Check {
             assumptions: Vec::new(),
             findings: load_findings(id),
             shared: Mutex::new(Shared::default()),
+            first_count: AtomicU64::new(0),
+            minhash_threshold: AtomicU64::new(u64::MAX),
             subs: Vec::new(),
             violations: Vec::new(),
             inconclusive: Vec::new(),
@@ -533,27 +581,36 @@ impl Check {
             }
             Verdict::Pass { nontrivial, labels } => {
                 if count {
+                    // Expensive renderings happen before the lock is taken.
+                    let fp = if nontrivial { debug_fingerprint(case) } else { 0 };
+                    // min-hash sampling: keep the first 3 non-trivial cases and the 3
+                    // with the smallest fingerprints (a deterministic uniform sample)
+                    let need_sample = nontrivial
+                        && (self.first_count.load(Ordering::Relaxed) < 3 || fp < self.minhash_threshold.load(Ordering::Relaxed));
+                    let sample = if need_sample { Some(sample_value(case)) } else { None };
                     let mut sh = self.shared.lock().unwrap();
                     sh.evaluations += 1;
                     for l in labels {
-                        *sh.classes.entry(l.to_string()).or_insert(0) += 1;
+                        match sh.classes.get_mut(l) {
+                            Some(c) => *c += 1,
+                            None => {
+                                sh.classes.insert(l.to_string(), 1);
+                            }
+                        }
                     }
                     if nontrivial {
                         sh.nontrivial_seen += 1;
-                        let fp = debug_fingerprint(case);
                         if sh.distinct.insert(fp) {
-                            if sh.first_samples.len() < 3 {
-                                sh.first_samples.push(sample_value(case));
-                            } else {
-                                sh.reservoir_seen += 1;
-                                let n = sh.reservoir_seen;
-                                if sh.reservoir.len() < 3 {
-                                    sh.reservoir.push(sample_value(case));
+                            if let Some(s) = sample {
+                                if sh.first_samples.len() < 3 {
+                                    sh.first_samples.push(s);
+                                    self.first_count.store(sh.first_samples.len() as u64, Ordering::Relaxed);
                                 } else {
-                                    // deterministic reservoir: keyed on fingerprint
-                                    let j = fp % n;
-                                    if (j as usize) < 3 {
-                                        sh.reservoir[j as usize] = sample_value(case);
+                                    sh.minhash.push((fp, s));
+                                    sh.minhash.sort_by_key(|(f, _)| *f);
+                                    sh.minhash.truncate(3);
+                                    if sh.minhash.len() == 3 {
+                                        self.minhash_threshold.store(sh.minhash[2].0, Ordering::Relaxed);
                                     }
                                 }
                             }
@@ -960,7 +1017,7 @@ impl Check {
         let wall = self.start.elapsed().as_secs_f64();
         let sh = self.shared.lock().unwrap();
         let mut samples: Vec<Value> = sh.first_samples.clone();
-        samples.extend(sh.reservoir.iter().cloned());
+        samples.extend(sh.minhash.iter().map(|(_, v)| v.clone()));
         let subs: Vec<Value> = self
             .subs
             .iter()
@@ -1100,26 +1157,38 @@ fn sanitize(s: &str) -> String {
 struct Slot {
     path: PathBuf,
     name: String,
-    counter: AtomicU64,
-    every: u64,
+    file: Mutex<Option<std::fs::File>>,
 }
 
 impl Slot {
     fn new(dir: &Path, name: &str, t: usize) -> Slot {
+        let path = dir.join(format!("slot-{}-{}.json", sanitize(name), t));
+        let file = std::fs::OpenOptions::new().create(true).write(true).truncate(true).open(&path).ok();
         Slot {
-            path: dir.join(format!("slot-{}-{}.json", sanitize(name), t)),
+            path,
             name: name.to_string(),
-            counter: AtomicU64::new(0),
-            every: std::env::var("VCORE_SLOT_EVERY").ok().and_then(|s| s.parse().ok()).unwrap_or(1),
+            file: Mutex::new(file),
         }
     }
+    /// Record the case about to run: one pwrite + ftruncate on an open fd.
+    /// Layout: JSON followed by spaces is still valid JSON, so a torn
+    /// truncate is harmless.
     fn write<T: Serialize + Debug>(&self, case: &T) {
-        let n = self.counter.fetch_add(1, Ordering::Relaxed);
-        if self.every == 0 || n % self.every != 0 {
-            return;
+        use std::os::unix::fs::FileExt;
+        let mut body = Vec::with_capacity(256);
+        body.extend_from_slice(b"{\"check\":");
+        let _ = serde_json::to_writer(&mut body, &self.name);
+        body.extend_from_slice(b",\"case\":");
+        if serde_json::to_writer(&mut body, case).is_err() {
+            body.extend_from_slice(b"null");
         }
-        let body = json!({"check": self.name, "case": serde_json::to_value(case).unwrap_or(Value::Null)});
-        let _ = std::fs::write(&self.path, body.to_string());
+        body.push(b'}');
+        if let Ok(guard) = self.file.lock() {
+            if let Some(f) = guard.as_ref() {
+                let _ = f.write_all_at(&body, 0);
+                let _ = f.set_len(body.len() as u64);
+            }
+        }
     }
     fn clear(&self) {
         let _ = std::fs::remove_file(&self.path);
